@@ -193,10 +193,11 @@ func BlockedByKnown(cell string) bool {
 		return false
 	}
 	for _, f := range fs {
-		if f.Property == "C13" && f.Status == "open" && f.Blocks {
-			v := &Violation{Property: "C13", Cell: cell, Symptom: f.Symptom}
+		if (f.Property == "C13" || f.Property == "C12") && f.Status == "open" && f.Blocks {
+			v := &Violation{Property: f.Property, Cell: cell, Symptom: f.Symptom}
 			g := *f
 			g.Symptom = v.Symptom
+			g.Detail = ""
 			if g.Matches(v) {
 				return true
 			}
